@@ -781,6 +781,48 @@ def m_range_next(it, S, t, callee, args):
     return R
 
 
+@model("<alloc::vec::Vec<T, A> as core::iter::traits::collect::IntoIterator>::into_iter")
+def m_vec_into_iter(it, S, t, callee, args):
+    # the iterator yields exactly len(v) items
+    ln = it.len_of_value(S, args[0], it.op_type(t["args"][0]))
+    R = ("call", it.site(), callee.get("path"))
+    set_ty(R, tykey(Place(t["dest"]).ty))
+    return it.with_len(R, ln)
+
+
+@model("core::iter::traits::iterator::Iterator::enumerate")
+def m_enumerate(it, S, t, callee, args):
+    # Enumerate yields as many items as the wrapped iterator
+    ln = project(args[0], (("len",),))
+    R = ("model", "enumerate", args[0])
+    set_ty(R, tykey(Place(t["dest"]).ty))
+    return it.with_len(R, ln)
+
+
+@model("<core::iter::adapters::enumerate::Enumerate<I> as core::iter::traits::iterator::Iterator>::next",
+       "<alloc::vec::into_iter::IntoIter<T, A> as core::iter::traits::iterator::Iterator>::next")
+def m_counted_next(it, S, t, callee, args):
+    # Some while items remain, None when exhausted
+    loc = it.target(args[0])
+    ln = S.read((loc[0], loc[1] + (("len",),)))
+    set_ty(ln, "usize")
+    R = ("call", it.site(), callee.get("path"))
+    set_ty(R, tykey(Place(t["dest"]).ty))
+    d = ("discr", R)
+    it.cond[(d, 1)] = [("le", U(1), ln, 0)]
+    it.cond[(d, 0)] = [("le", ln, U(0), 0)]
+    if S.prove_le(U(1), ln, 0):
+        S.set_dom(d, Dom(1, 1))
+    elif S.prove_le(ln, U(0), 0):
+        S.set_dom(d, Dom(0, 0))
+    new = ("call", it.site("len"), "remaining-after-next")
+    set_ty(new, "usize")
+    S.write((loc[0], loc[1] + (("len",),)), new)
+    S.add_le(new, ln, 0)
+    it.havoc_args(S, t, args, skip=(0,))
+    return R
+
+
 # ----------------------------------------------------------------------------- hash maps
 @model("std::collections::hash::map::HashMap::get", "std::collections::hash::map::HashMap::contains_key")
 def m_map_get(it, S, t, callee, args):
